@@ -134,6 +134,17 @@ func VH_C18_Groupings_sym() {
 	in := n.GetCategories([]string{"bundle"})
 	vAssert("nested_children", len(in) == 1 && in[0].Name == "inner" && in[0].Type == hotline.NewsCategory)
 	vAssert("existing_category_untouched", len(n.ThreadedNews.Categories["cat"].Articles) == 2)
+	// a category two bundles deep is found with its own type
+	err = n.CreateGrouping([]string{"bundle"}, "b2", hotline.NewsBundle)
+	vAssert("create_b2_ok", err == nil)
+	err = n.CreateGrouping([]string{"bundle", "b2"}, "deep", hotline.NewsCategory)
+	vAssert("create_deep_ok", err == nil)
+	it := n.NewsItem([]string{"bundle", "b2", "deep"})
+	vAssert("deep_item_found_with_its_type", it.Name == "deep" && it.Type == hotline.NewsCategory)
+	it2 := n.NewsItem([]string{"bundle", "b2"})
+	vAssert("bundle_item_found_with_its_type", it2.Name == "b2" && it2.Type == hotline.NewsBundle)
+	err = n.DeleteNewsItem([]string{"bundle", "b2"})
+	vAssert("delete_b2_ok", err == nil)
 	err = n.DeleteNewsItem([]string{"bundle", "inner"})
 	vAssert("delete_nested_ok", err == nil)
 	vAssert("nested_gone", len(n.GetCategories([]string{"bundle"})) == 0)
